@@ -74,6 +74,7 @@ func ProfileFor(prop string) *Profile {
 		Cfg: CfgOpts{Limits: 300, MaxApps: 250, QueueMax: 500, Guaranteed: 200, Dynamic: true}}
 	switch prop {
 	case "C01":
+		p.Gang = 400
 		p.NodeCap = [2]int{2, 6}
 		p.PredDeny = 200
 		p.ReqNode = 120
@@ -155,6 +156,7 @@ func RunCase(prop string, seed uint64, replayDir string, cmdLog *os.File) (res *
 		return int(uint16(h[0])<<8|uint16(h[1]))%1000 >= deny
 	}
 	e := NewEngine(c, m.YAML)
+	e.CheckProp = prop
 	e.Cmd = cmdLog
 	if !e.Init() {
 		res.Inconclusive = e.Inconclusive
@@ -174,7 +176,7 @@ func RunCase(prop string, seed uint64, replayDir string, cmdLog *os.File) (res *
 		}
 	}
 	steps := r.Range(prof.Steps[0], prof.Steps[1])
-	for i := 0; i < steps && e.Inconclusive == "" && len(e.Viol) == 0; i++ {
+	for i := 0; i < steps && e.Inconclusive == "" && !e.stopNow(); i++ {
 		op := g.Next()
 		if op.Kind == OpReload {
 			ok := e.Do(op)
@@ -183,7 +185,7 @@ func RunCase(prop string, seed uint64, replayDir string, cmdLog *os.File) (res *
 		}
 		e.Do(op)
 	}
-	if prof.Closing && e.Inconclusive == "" && len(e.Viol) == 0 {
+	if prof.Closing && e.Inconclusive == "" && !e.stopNow() {
 		e.closing(g)
 	}
 	res.Steps = e.StepN
